@@ -99,6 +99,10 @@ func (g *gen) c12Block() simrt.Op {
 		case 1:
 			b.Sub = append(b.Sub, g.xfer())
 		case 2:
+			if r.Chance(1, 3) {
+				b.Sub = append(b.Sub, g.sharedGroup([]int{0, 0, 1, 2, 3, 4}[r.Intn(6)]))
+				continue
+			}
 			grp := simrt.Op{K: "group"}
 			names := []int{0, 0, 1, 2, 4}
 			if r.Chance(1, 5) {
